@@ -372,10 +372,25 @@ def r3_container_agreement(ctx):
                       f.where(b), show(t))
 
 
+def _front_call(x):
+    """the `list.front_time()` call behind x: x itself, or the payload of its result when the accessor returns Option<Duration> (None for
+    an empty list instead of the MAX sentinel)"""
+    x = peel(x)
+    if x[0] == 'call' and x[1] == L + '::front_time':
+        return x
+    if x[0] == 'field' and x[2] == '0':
+        y = peel(x[1])
+        if y[0] == 'as' and y[2] == 'Some':
+            z = peel(y[1])
+            if z[0] == 'call' and z[1] == L + '::front_time':
+                return z
+    return None
+
+
 def _node_time(x):
     """x is the timestamp of a stored node: `list.front_time()`, or the time component of what `list.pop_min()` returned (R7 decides
     that pop_min hands back the node's own time).  Returns the list receiver tree, else None."""
-    x = peel(x)
+    x = _front_call(x) or peel(x)
     if x[0] == 'call' and x[1] == L + '::front_time' and x[2]:
         return x[2][0]
     if x[0] == 'field' and x[2] == '1' and peel(x[1])[0] == 'field' and peel(x[1])[2] == '0':
@@ -562,13 +577,12 @@ def r5_fetch_skeleton(ctx, rule='C01.R5'):
                 ctx.check(not alien and not calls_, 'window-stepped-not-repositioned:%s' % e[2],
                           'the scan window moves by a step computed from the window and the queue parameters only', f.where_path(path),
                           {'field': e[2], 'reads': alien, 'calls': sorted(calls_), 'value': show(e[4])[:140]})
-        wr = [i for i, e in enumerate(effs[:ip]) if e[0] == 'w' and e[1] == 'set' and e[4] is not None and
-              peel(e[4])[0] == 'call' and peel(e[4])[1] == L + '::front_time']
+        wr = [i for i, e in enumerate(effs[:ip]) if e[0] == 'w' and e[1] == 'set' and e[4] is not None and _front_call(e[4]) is not None]
         ok = False
         detail = None
         if wr:
             iw = wr[-1]
-            src_call = peel(effs[iw][4])
+            src_call = _front_call(effs[iw][4])
             src_recv = canon(peel(src_call[2][0]))
             # from the evaluation of front_time (not merely the store of its result) up to the pop
             ic = [i for i, e in enumerate(effs[:ip]) if e[0] == 'c' and len(src_call) > 3 and e[1].b == src_call[3] and _is_call(e, L + '::front_time')]
